@@ -836,7 +836,7 @@ extern "C" void *__wrap_mmap(void *addr, size_t len, int prot, int flags, int fd
 	int kind = (flags & MAP_HUGETLB) ? RQ_MMAP_HUGE : RQ_MMAP;
 	int rflags = flags & ~(MAP_HUGETLB | MAP_POPULATE); // huge-page pool is a stub: served from ordinary pages
 	if (ctx->model_mode) {
-		if (!kArena) return mmap(addr, len, prot, rflags, fd, off);
+		if (!kArena || (fd >= 0 && !(flags & MAP_ANONYMOUS))) return mmap(addr, len, prot, rflags, fd, off); // views of an object keep their identity
 		Block *mb = arena_alloc(len, PG, kind, ctx, true, 1);
 		if (!mb) { fprintf(stderr, "rxsim: model arena exhausted\n"); abort(); }
 		if (prot != (PROT_READ | PROT_WRITE)) arena_protect(mb->page_lo, mb->npages, prot);
